@@ -29,6 +29,10 @@ func cmpElem(a, b Elem) int {
 	return 0
 }
 
+// cmpElemWide is a legal comparator that returns the difference of the keys
+// rather than -1/0/+1.
+func cmpElemWide(a, b Elem) int { return 3 * (a.Key - b.Key) }
+
 func elemsString(es []Elem) string {
 	var sb strings.Builder
 	sb.WriteByte('[')
